@@ -211,8 +211,14 @@ func (v *FnVC) exec(fr *frame, st *State, ins ssa.Instruction) {
 	case *ssa.Defer:
 		v.note("deferred calls are not modelled")
 		if fr.top {
-			// effects of deferred closures are ignored: only accept when the function has no contract ensures
-			if v.con != nil && len(v.con.Ensures) > 0 {
+			// deferred library calls (Close, Chdir) do not touch module-visible heap; anything else deferred in a
+			// function with postconditions is out of subset
+			cal := x.Call.StaticCallee()
+			harmless := cal != nil && !v.w.InModule(cal) && !externalIsTop(cal)
+			if x.Call.IsInvoke() && x.Call.Method.Name() == "Close" {
+				harmless = true
+			}
+			if !harmless && v.con != nil && len(v.con.Ensures) > 0 {
 				panic(unsupported("defer in function with postconditions"))
 			}
 		}
@@ -674,6 +680,11 @@ func (v *FnVC) unop(fr *frame, st *State, x *ssa.UnOp) Val {
 	switch x.Op {
 	case token.MUL:
 		et := elemTypeOfAddr(x.X)
+		if g, isG := x.X.(*ssa.Global); isG {
+			if c, ok := v.w.ConstGlobals()[g]; ok {
+				return v.constVal(c)
+			}
+		}
 		if ps, ok := a.(Sc); ok {
 			v.safe(fr, "nil", x, Not(Eq(ps.T, tZero)))
 		}
